@@ -15,3 +15,15 @@ package utils
 //@   nomod
 //@ func IsExitError
 //@   nomod
+//@ func ReadEnvFile
+//@   nomod
+//@ func IsURL
+//@   nomod
+//@ func FileExists
+//@   nomod
+//@ func MustGetwd
+//@   nomod
+//@ func MustGetUserHomeDir
+//@   nomod
+//@ func MapKeys
+//@   nomod
